@@ -274,6 +274,29 @@ let handle (toks: string list) : string =
       let ni s = n_of_int (int_of_string s) in
       let i = { i_mn = ni mn; i_suf = ni suf; i_pre = ni pre; i_rmode = ni rmode; i_val = ni v } in
       id ^ " " ^ show_outcome (asm_instr (v8 = "1") (ni proc) (m8 = "1") (x8 = "1") (ni pc) i)
+  | "renummodel" :: id :: maxn :: b :: e :: first :: step :: mv :: rows :: [] ->
+      let ni s = n_of_int (int_of_string s) in
+      let rl = List.map (fun t -> if t = "-" then None else Some (ni t)) (String.split_on_char ',' rows) in
+      (match renumber rl (ni b) (ni e) (ni first) (ni step) (mv = "1") (ni maxn) with
+       | Refused0 w -> id ^ " refused " ^ string_of_int (int_of_n w)
+       | Accepted0 (m, ins) ->
+           let (s0, t0) = (match wrapper_rows rl (ni b) (ni e) with Some (s0, t0) -> (s0, t0) | None -> (N0, N0)) in
+           let nr = renumbered rl m s0 t0 in
+           id ^ " ok ins=" ^ string_of_int (int_of_n ins) ^ " sel=" ^ string_of_int (int_of_n s0) ^ "-" ^ string_of_int (int_of_n t0) ^ " rows=" ^
+             String.concat "," (List.map (fun o -> match o with None -> "-" | Some v -> string_of_int (int_of_n v)) nr))
+  | "applyright" :: id :: linehex :: edits ->
+      let rec es l = (match l with c0 :: c1 :: t :: r -> ((nat_of_int (int_of_string c0), nat_of_int (int_of_string c1)), hexarg t) :: es r | _ -> []) in
+      id ^ " " ^ hex_of_bytes (apply_right (hexarg linehex) (es edits)) ^ "."
+  | "hidden" :: id :: short :: follow :: [] ->
+      id ^ " " ^ (if forms_hidden_token (hexarg short) (hexarg follow) then "1" else "0")
+  | "refmap" :: id :: all :: deleted :: [] ->
+      let ni s = n_of_int (int_of_string s) in
+      let csv s = if s = "-" then [] else List.map ni (String.split_on_char ',' s) in
+      let (ar, dr) = undelete_trailing (List.rev (csv all)) (List.rev (csv deleted)) in
+      let al = List.rev ar and dl = List.rev dr in
+      (match ref_map dl (csv all) dl with
+       | Some m -> ignore al; id ^ " " ^ String.concat "," (List.map (fun (a, b) -> string_of_int (int_of_n a) ^ ">" ^ string_of_int (int_of_n b)) m) ^ "."
+       | None -> id ^ " none")
   | "crc32" :: id :: hex :: [] -> id ^ " " ^ string_of_int (int_of_n (crc32 N0 (hexarg hex)))
   | "crc16" :: id :: seed :: hex :: [] -> id ^ " " ^ string_of_int (int_of_n (crc16 (n_of_int (int_of_string seed)) (hexarg hex)))
   | "imdtrk" :: id :: _kind :: secsize :: nsec :: rest ->
